@@ -13,7 +13,7 @@ fi
 # 1. compile what extraction needs
 TARGETS=""
 for f in $MODS_V coq/gen/Extracted.v; do TARGETS="$TARGETS ${f#coq/}o"; done
-( cd coq && { [ -f Makefile ] || coq_makefile -f _CoqProject -o Makefile >/dev/null; } && timeout 1800 make -j16 $TARGETS >/dev/null ) || { echo "driver: coq build failed"; exit 2; }
+( cd coq && ../tools/gen_coqproject.sh && timeout 1800 make -j16 $TARGETS >/dev/null ) || { echo "driver: coq build failed"; exit 2; }
 # 2. extract
 EX=$CACHE/extract
 rm -rf "$EX"; mkdir -p "$EX"
